@@ -71,7 +71,7 @@ var ReqVariants = map[string][]string{
 	"upgrade":    {"canonical", "absent", "case-name", "case-value", "blanks", "wrong", "empty", "dup-same", "dup-diff", "token-list", "prefix", "suffix"},
 	"connection": {"canonical", "absent", "case-name", "case-value", "blanks", "wrong", "empty", "dup-same", "dup-diff", "list-first", "list-middle", "list-last", "list-nospace", "substring", "list-tab"},
 	"version":    {"canonical", "absent", "case-name", "blanks", "wrong-12", "wrong-8", "wrong-130", "empty", "dup-same", "dup-diff", "list"},
-	"key":        {"canonical", "absent", "case-name", "blanks", "len23", "len25", "nonbase64-24", "decodes-17", "decodes-18", "empty", "dup-same", "dup-diff", "len16raw"},
+	"key":        {"canonical", "absent", "case-name", "blanks", "len23", "len25", "nonbase64-24", "decodes-17", "decodes-18", "empty", "dup-same", "dup-diff", "len16raw", "cr-inside", "cr-cr-tail"},
 	"extra":      {"none", "some", "long-value", "many", "no-colon-line", "empty-name"},
 	"eol":        {"crlf", "lf"},
 }
@@ -289,6 +289,15 @@ func BuildReq(rng *rand.Rand, choice map[string]string, protoHdrs, extHdrs []str
 		r.Key = base64.StdEncoding.EncodeToString(k[:])
 		add(keyHdr, " "+r.Key)
 		v.Reject("24-char key decoding to 18 bytes", 400)
+	case "cr-inside":
+		// bytes a lenient base64 decoder skips (RFC 4648 decoders commonly ignore CR/LF)
+		add(keyHdr, " "+key[:12]+"\r"+key[12:])
+		r.Key = ""
+		v.Reject("key with a bare CR inside", 400)
+	case "cr-cr-tail":
+		add(keyHdr, " "+key[:8]+"\r"+key[8:]+"\r\r")
+		r.Key = ""
+		v.Reject("key with three bare CRs", 400)
 	case "len16raw":
 		add(keyHdr, " 0123456789abcdef")
 		v.Reject("16-char key", 400)
